@@ -24,6 +24,7 @@ import inference2coq  # noqa: E402
 import guards2coq  # noqa: E402
 import demography2coq  # noqa: E402
 import sfs2coq  # noqa: E402
+import marginals2coq  # noqa: E402
 
 # one entry per translated source file: translator module, source, committed generated file, equivalence proofs
 TIES = {
@@ -35,6 +36,7 @@ TIES = {
     'configs': dict(mod=configs2coq, src='', gen='ConfigsGen', equiv='GenConfigsEquiv', src_is_dir=True),
     'demography': dict(mod=demography2coq, src='demography.py', gen='DemographyGen', equiv='GenDemographyEquiv'),
     'sfs': dict(mod=sfs2coq, src='distributions.py', gen='SfsGen', equiv='GenSfsEquiv'),
+    'marginals': dict(mod=marginals2coq, src='distributions.py', gen='MarginalsGen', equiv='GenMarginalsEquiv'),
     'guards': dict(mod=guards2coq, src='', gen='GuardsGen', equiv='GenGuardsEquiv', src_is_dir=True),
     'inference': dict(mod=inference2coq, src='inference.py', gen='InferenceGen', equiv='GenInferenceEquiv'),
     'search': dict(mod=search2coq, src='distributions.py', gen='SearchGen', equiv='GenSearchEquiv'),
